@@ -42,6 +42,21 @@ def lsum : List R → R
 
 def blockSum (f : Nat → R) (cs : List Nat) : R := lsum (blockTerms f 0 cs)
 
+/-! ### any number of contracted indices (`einsum`: `contract_inds = all_inds - outputs`, every one of them chunked;
+`tensordot` with several axes) -/
+
+/-- `Σ` over the index space `range dims[0] × range dims[1] × …` of `f [i₀, i₁, …]` -/
+def sumOver : List Nat → (List Nat → R) → R
+  | [], f => f []
+  | n :: ns, f => sumTo n fun i => sumOver ns fun is => f (i :: is)
+
+/-- the same sum computed block by block: index `j` is cut into chunks `css[j]`; every block of the product grid
+    contributes its partial sum (the blockwise step with `adjust_chunks → 1`), the partial sums are added up (the final
+    `.sum(axis=contracted axes)`) -/
+def blockSumOver : List (List Nat) → (List Nat → R) → R
+  | [], f => f []
+  | cs :: css, f => blockSum (fun i => blockSumOver css fun is => f (i :: is)) cs
+
 /-- vector dot product of two integer lists through a chunking of the contracted axis -/
 def dotBlocks (a b : List Int) (cs : List Nat) : List Int :=
   blockTerms (fun l => a.getD l 0 * b.getD l 0) 0 cs
